@@ -219,6 +219,8 @@ pub struct World {
     pub group_blobs: BTreeMap<String, (Vec<u8>, Vec<u8>)>,
     /// the last file announced per group (plain bytes, MIME type)
     pub last_media: BTreeMap<usize, (Vec<u8>, &'static str)>,
+    /// every third message carries 10-30 KB of canary text (C13: overflow pages)
+    pub big_messages: bool,
     pub capture_sidecars: bool,
     pub sidecar_captures: Vec<(String, String, Vec<u8>)>,
     pub last_crash: Option<(u32, usize, u64, String)>,
@@ -308,6 +310,7 @@ impl World {
             count_ticks: false,
             group_blobs: BTreeMap::new(),
             last_media: BTreeMap::new(),
+            big_messages: false,
             capture_sidecars: false,
             sidecar_captures: vec![],
             last_crash: None,
@@ -841,7 +844,14 @@ impl World {
                 let Some(gid) = self.gid(*g) else { return Outcome::new("skipped", "no group") };
                 let pk = self.nodes[node].pubkey();
                 let canary = format!("CANARY-{}-{}-{}", self.seed % 100_000, step.id, tag);
-                let content = format!("msg {canary} from n{node}");
+                let mut content = format!("msg {canary} from n{node}");
+                if self.big_messages && tag % 3 == 0 {
+                    // large values spill to overflow pages of the database
+                    let pad = format!(" {canary}-overflow-page-filler");
+                    let n = 200 + (*tag as usize % 5) * 120;
+                    content.push_str(&pad.repeat(n));
+                    self.probe("big_message_sent");
+                }
                 let node_now = (self.now as i64 + self.nodes[node].cfg.clock_offset) as u64;
                 let created_at = Timestamp::from(node_now.saturating_sub(*ts_back as u64));
                 let mut tags = vec![Tag::custom(TagKind::Custom("t".into()), [format!("tag{tag}")])];
